@@ -157,13 +157,13 @@ def parser_literal_cases():
             if got != exp:
                 return {"confirmed": True, "input": {"source": src}, "actual": got, "expected": exp, "how": "real parser: (name, initial value) of the declared variables"}
     # literals in attributes and in a length expression come back as well
-    src = ("module m\n  use iso_c_binding\n  integer(c_int), bind(C, name=\"Foo_Bar\") :: cvar\n  character(len=len('ab;c')) :: s\n  integer, dimension(len(\"q!r\")) :: d\nend module m\n")
+    src = ("module m\n  use iso_c_binding\n  integer(c_int), bind(C, name=\"Foo_Bar\") :: cvar\n  character(len=len('ab;c')) :: s\n  integer, dimension(len(\"q!r\")) :: d\n  character(len=max(len('short'), len(\"a much longer text\"))) :: b2\n  character(kind=merge(kind('a'), kind(\"bb\"), .true.), len=2) :: k2\nend module m\n")
     try:
         f = realrun.parse_source(src)
         got = [(v.name, v.attribs, v.strlen) for v in f.modules[0].variables]
     except Exception as e:
         got = f"{type(e).__name__}: {e}"
-    exp = [("cvar", ['bind(C, name="Foo_Bar")'], None), ("s", [], "len('ab;c')"), ("d", ['dimension(len("q!r"))'], None)]
+    exp = [("cvar", ['bind(C, name="Foo_Bar")'], None), ("s", [], "len('ab;c')"), ("d", ['dimension(len("q!r"))'], None), ("b2", [], "max(len('short'),len(\"a much longer text\"))"), ("k2", [], "2")]
     if got != exp:
         return {"confirmed": True, "input": {"source": src}, "actual": got, "expected": exp, "how": "real parser: (name, attributes, character length) of the declared variables"}
     # ... and in the prefix of a function statement (the statement's literals are collected by the container that read it)
